@@ -60,9 +60,10 @@ type capCfg struct {
 
 	Loopback4 string // HOST_IPV4_LOOPBACK_CIDR
 
-	Symmetric bool // every v4 item has its v6 image and vice versa: v4/v6 fates are comparable
-	Pod4      netip.Addr
-	Pod6      netip.Addr
+	CatchAllCIDR bool // a v4 include range that contains the loopback block without starting inside it
+	Symmetric    bool // every v4 item has its v6 image and vice versa: v4/v6 fates are comparable
+	Pod4         netip.Addr
+	Pod6         netip.Addr
 }
 
 // phi is the v4 -> v6 image used for the parity clause: fd00::/96 + the 32 address bits;
@@ -239,6 +240,22 @@ func genCfg(r *rand.Rand, idx int) *capCfg {
 			c.OutInc4 = append(c.OutInc4, netip.MustParsePrefix("127.1.2.3/32"))
 			c.Symmetric = false
 		}
+		if r.Intn(8) == 0 {
+			// catch-all ranges written as CIDRs (the same policy as "*", except that they are lists): they straddle the
+			// loopback block without starting inside it
+			switch r.Intn(4) {
+			case 0:
+				c.OutInc4 = []netip.Prefix{netip.MustParsePrefix("0.0.0.0/0")}
+			case 1:
+				c.OutInc4 = []netip.Prefix{netip.MustParsePrefix("0.0.0.0/1"), netip.MustParsePrefix("128.0.0.0/1")}
+			case 2:
+				c.OutInc4 = append(c.OutInc4, netip.MustParsePrefix("64.0.0.0/2"))
+			default:
+				c.OutInc4 = append(c.OutInc4, netip.MustParsePrefix("126.0.0.0/7"))
+			}
+			c.Symmetric = false
+			c.CatchAllCIDR = true
+		}
 	}
 	if r.Intn(5) < 3 {
 		n := 1 + weighted(r, 5, 3)
@@ -277,6 +294,9 @@ func genCfg(r *rand.Rand, idx int) *capCfg {
 			}
 			if !c.OutAll && len(c.OutInc4) > 0 && r.Intn(2) == 0 {
 				c.OutInc6 = append(c.OutInc6, randV6Native(r))
+			}
+			if c.CatchAllCIDR && r.Intn(2) == 0 {
+				c.OutInc6 = append(c.OutInc6, netip.MustParsePrefix("::/0"))
 			}
 			for _, p := range c.OutExc4 {
 				if r.Intn(2) == 0 {
